@@ -44,8 +44,8 @@ def run_one_shard(spec, workdir, timeout):
                 [PY, "-m", "vf.shard", spec_path, out_path], cwd=vf.VERIF, env=env,
                 timeout=timeout, capture_output=True, text=True)
         except subprocess.TimeoutExpired:
-            last = {"watchdog": f"shard {spec['shard']} exceeded {timeout}s (attempt {attempt})"}
-            continue
+            # never a verdict, and not retried: a hang would only hang again
+            return {"watchdog": f"shard {spec['shard']} exceeded the {timeout}s wall-clock watchdog"}
         if os.path.exists(out_path):
             res = json.load(open(out_path))
             res["stderr_tail"] = proc.stderr[-500:] if proc.returncode else ""
